@@ -8,7 +8,11 @@ MODULES = {
     "C01": "checks.conc_checks", "C04": "checks.conc_checks", "C06": "checks.conc_checks", "C07": "checks.conc_checks",
     "C10": "checks.conc_checks", "C17": "checks.conc_checks",
     "C03": "checks.cache_checks", "C05": "checks.cache_checks", "C08": "checks.cache_checks",
-    "C09": "checks.cache_checks", "C14": "checks.cache_checks", "C13": "checks.cache_checks",
+    "C02": "checks.eval_checks", "C09": "checks.cache_checks",
+    "C11": "checks.fs_checks", "C12": "checks.fs_checks",
+    "C13": "checks.imm_checks", "C14": "checks.imm_checks",
+    "C15": "checks.prog_checks", "C20": "checks.prog_checks",
+    "C19": "checks.tb_checks",
 }
 
 
